@@ -30,15 +30,18 @@ Record rob := mkRob {
   g_fate : list (tx * bool); (* transactions that left the buffer: answered / discarded *)
   g_out : list msg;          (* responses pushed to top_out *)
   g_retr : list msg;         (* responses retrieved from top_out by the environment *)
-  g_bretr : list msg         (* bottom requests retrieved from bot_out by the environment *)
+  g_bretr : list msg;        (* bottom requests retrieved from bot_out by the environment *)
+  g_cdeliv : list msg;       (* control messages whose Deliver was accepted *)
+  g_cack : list msg;         (* acknowledgements pushed to ctl_out *)
+  g_cretr : list msg         (* acknowledgements retrieved from ctl_out by the environment *)
 }.
 
 #[export] Instance eta_rob : Settable _ := settable! mkRob
   <cap; width; txs; flushing; top_in; top_out; bot_in; bot_out; ctl_in; ctl_out;
-   next_id; crashed; g_deliv; g_seen; g_fwd; g_fate; g_out; g_retr; g_bretr>.
+   next_id; crashed; g_deliv; g_seen; g_fwd; g_fate; g_out; g_retr; g_bretr; g_cdeliv; g_cack; g_cretr>.
 
 Definition init (c w : nat) : rob :=
-  mkRob c w [] false [] [] [] [] [] [] 1000000 false [] [] [] [] [] [] [].
+  mkRob c w [] false [] [] [] [] [] [] 1000000 false [] [] [] [] [] [] [] [] [] [].
 
 Definition pcap (s : rob) : nat := (2 * width s)%nat.
 
@@ -136,11 +139,13 @@ Definition process_ctl (s : rob) : rob * bool :=
     if has_flag c F_DISCARD then
       if can_push 1 (ctl_out s) then
         (discard_all s <| ctl_out := ctl_out s ++ [ctl_ack c] |>
+                       <| g_cack := g_cack s ++ [ctl_ack c] |>
                        <| flushing := true |> <| ctl_in := rest |>, true)
       else (s, false)
     else if has_flag c F_RESTART then
       if can_push 1 (ctl_out s) then
         (discard_all s <| ctl_out := ctl_out s ++ [ctl_ack c] |>
+                       <| g_cack := g_cack s ++ [ctl_ack c] |>
                        <| flushing := false |> <| ctl_in := rest |>
                        <| g_seen := g_seen s ++ map (fun m => (m, false)) (top_in s) |>
                        <| top_in := [] |> <| bot_in := [] |>, true)
@@ -172,7 +177,7 @@ Definition step (s : rob) (e : ev) : rob * obs :=
     then (s <| bot_in := bot_in s ++ [m] |>, OAcc true) else (s, OAcc false)
   | EDeliverCtl m =>
     if can_push 1 (ctl_in s)
-    then (s <| ctl_in := ctl_in s ++ [m] |>, OAcc true) else (s, OAcc false)
+    then (s <| ctl_in := ctl_in s ++ [m] |> <| g_cdeliv := g_cdeliv s ++ [m] |>, OAcc true) else (s, OAcc false)
   | ETick => let '(s', p) := tick s in
              if crashed s' then (s', OCrash) else (s', OTick p)
   | ERetrTop =>
@@ -186,7 +191,10 @@ Definition step (s : rob) (e : ev) : rob * obs :=
     | m :: r => (s <| bot_out := r |> <| g_bretr := g_bretr s ++ [m] |>, OMsg (Some m))
     end
   | ERetrCtl =>
-    match ctl_out s with [] => (s, OMsg None) | m :: r => (s <| ctl_out := r |>, OMsg (Some m)) end
+    match ctl_out s with
+    | [] => (s, OMsg None)
+    | m :: r => (s <| ctl_out := r |> <| g_cretr := g_cretr s ++ [m] |>, OMsg (Some m))
+    end
   end.
 
 Definition run (s : rob) (evs : list ev) : rob :=
